@@ -1,4 +1,5 @@
 import BW.Model.Query
+import BW.Model.QueryPost
 import BW.Spec.Query
 import BW.Generated.MemoryFacts
 import Driver.Proto
@@ -82,6 +83,65 @@ def parseStmt (ws : List String) : Option Stmt := do
         | [o, b] => do pure (← o.toNat?, ← hexStr b)
         | _ => none) f }
 
+def parseHOp : String → Option HOp
+  | "LT" => some .lt | "GT" => some .gt | "EQ" => some .eq | _ => none
+
+def parseHTok (s : String) : Option HTok :=
+  match s.splitOn "~" with
+  | [ty, text, parsed] =>
+    match ty with
+    | "BINDING" => (hexStr text).map .binding
+    | "LT" | "GT" | "EQ" => (parseHOp ty).map .op
+    | "NOT" => some .not
+    | "AND" => some .and
+    | "OR" => some .or
+    | "LEFT_PARENT" => some .lpar
+    | "RIGHT_PARENT" => some .rpar
+    | "LITERAL" => some (.lit (if parsed == "bad" then none else parseLit (fields parsed)))
+    | "NODE" => some (.node (if parsed == "bad" then none else parseNode (fields parsed)))
+    | "TIME" => some (.time (if parsed == "bad" then none else (parseTimeP parsed).join))
+    | "PREDICATE" => (hexStr text).map .pred
+    | _ => some .other
+  | _ => none
+
+def parseHaving (ws : List String) : Option (List HTok) := do
+  let ht ← kv ws "ht"
+  listOf ";" parseHTok ht
+
+/-! #### printed forms from the universe of the run -/
+
+def natStr (n : Nat) : Bytes := (toString n).toUTF8.toList
+def intStr (i : Int) : Bytes := (toString i).toUTF8.toList
+def bs (s : String) : Bytes := s.toUTF8.toList
+
+def litStrBasic : Lit → Option Bytes
+  | .bool b => some (bs (if b then "\"true\"^^type:bool" else "\"false\"^^type:bool"))
+  | .int i => some ([34] ++ intStr i ++ bs "\"^^type:int64")
+  | .text t => some ([34] ++ t ++ bs "\"^^type:text")
+  | .blob b => some (bs "\"[" ++ (bs " ").intercalate (b.map fun x => natStr x.toNat) ++ bs "]\"^^type:blob")
+  | .float _ => none
+
+/-- `"id"@[<time>]` → `<time>`. -/
+def anchorText (pstr : Bytes) : Bytes :=
+  let rev := pstr.reverse
+  match rev with
+  | 93 :: rest => ((rest.takeWhile (· != 91))).reverse
+  | _ => []
+
+def mkStrs (uni : List (Nat × Triple × TView)) : Strs :=
+  let preds : List (Pred × Bytes) := uni.flatMap fun (_, t, v) =>
+    (t.p, v.pstr) :: (match t.o with | .pred p => [(p, v.ostr)] | _ => [])
+  let lits : List (Lit × Bytes) := uni.filterMap fun (_, t, v) => match t.o with | .lit l => some (l, v.ostr) | _ => none
+  let times : List (Time × Bytes) := preds.filterMap fun (p, s) => match p with | .tmp _ t => some (t, anchorText s) | _ => none
+  { pred := fun p => ((preds.find? (·.1 == p)).map (·.2)).getD []
+    time := fun t => ((times.find? (·.1 == t)).map (·.2)).getD []
+    lit := fun l => match litStrBasic l with
+      | some s => s
+      | none => ((lits.find? (·.1 == l)).map (·.2)).getD [] }
+
+def floatAddBits (a b : Nat) : Nat :=
+  ((Float.ofBits a.toUInt64) + (Float.ofBits b.toUInt64)).toBits.toNat
+
 /-! #### canonical rendering of tables -/
 
 def showNode (n : Node) : String := s!"N,{hexBytes n.ty},{hexBytes n.id}"
@@ -110,39 +170,89 @@ def showTable (cols : List Bytes) (rows : List Row) (ordered : Bool) : String :=
 def errClass : QErr → String
   | _ => "err"
 
-/-- The SELECT pipeline of the model (no GROUP BY / ORDER BY / HAVING yet: those statements answer
-    `unsupported` and are compared by the checks that own them). -/
-def runModel (st : St) (q : Stmt) : String :=
+/-- Canonical order of tie groups: Go's sort is not stable, so rows that compare equal under the
+    ORDER BY configuration are ordered by their rendering (the harness does the same). -/
+def canonTies (S : Strs) (cfg : List (Bytes × Bool)) (cols : List Bytes) (rows : List Row) : List Row :=
+  let render := fun (r : Row) => "|".intercalate (cols.map fun b => showCell ((r.get b).getD .null))
+  let rec groups : List Row → List (List Row)
+    | [] => []
+    | r :: rest =>
+      match groups rest with
+      | [] => [[r]]
+      | (x :: xs) :: gs => if compareRows S cfg r x == .eq then (r :: x :: xs) :: gs else [r] :: (x :: xs) :: gs
+      | [] :: gs => [r] :: gs
+  (groups rows).flatMap fun g => g.mergeSort fun a b => render a ≤ render b
+
+/-- The SELECT pipeline of the model, in the stage order of `queryPlan.Execute`. -/
+def runModel (st : St) (q : Stmt) (having : List HTok) : String :=
   let F := BW.Generated.memoryFacts
+  let S := mkStrs st.uni
   match q.graphs.mapM (fun n => (st.graphs.find? (·.1 == n)).map (·.2)) with
   | none => "err"
   | some gs =>
     let qgs : List QGraph := gs.map fun g => { g := g, uni := st.triple }
-    if !q.groupBy.isEmpty || !q.orderBy.isEmpty || q.hasHaving || !q.filters.isEmpty then "unsupported" else
+    if !q.filters.isEmpty then "unsupported" else
     match processPattern F qgs q.clauses { lower := q.lower, upper := q.upper } q.pushedLimit (fun _ => none) with
     | .error e => errClass e
     | .ok tbl =>
-      match projectPlain q tbl with
+      -- projection / grouping
+      let staged : Except QErr Tbl :=
+        if q.groupBy.isEmpty then projectPlain q tbl
+        else (groupReduce S floatAddBits q tbl.rows).map fun rows =>
+          ({ bindings := if rows.isEmpty then tbl.bindings else dedup q.outputBindings, rows := rows } : Tbl)
+      match staged with
       | .error e => errClass e
       | .ok t =>
-        let rows := match q.limit with | some n => limitRows n t.rows | none => t.rows
-        if rows.isEmpty then
-          (if (dedup q.outputBindings).length != q.outputBindings.length then "err"
-           else showTable q.outputBindings [] false)
-        else showTable t.bindings rows false
+        let rows := sortRows S q.orderBy t.rows
+        let hv : Except HErr (List Row) :=
+          if q.hasHaving then
+            match newEvaluator having with
+            | some e => havingFilter S e rows
+            | none => .error .badConstant
+          else .ok rows
+        match hv with
+        | .error _ => "err"
+        | .ok rows =>
+          let rows := match q.limit with | some n => limitRows n rows | none => rows
+          if rows.isEmpty then
+            (if (dedup q.outputBindings).length != q.outputBindings.length then "err"
+             else showTable q.outputBindings [] false)
+          else
+            let cols := if q.groupBy.isEmpty then t.bindings else dedup q.outputBindings
+            if q.orderBy.isEmpty then showTable cols rows false
+            else showTable cols (canonTies S q.orderBy cols rows) true
 
-def runSpec (st : St) (q : Stmt) : String :=
+/-- Reference pipeline: the solutions of the pattern (join over a scan), then the declarative stages:
+    one row per group with its aggregates, rows satisfying HAVING, sorted permutation, first n. -/
+def runSpec (st : St) (q : Stmt) (having : List HTok) : String :=
+  let S := mkStrs st.uni
   match q.graphs.mapM (fun n => (st.graphs.find? (·.1 == n)).map (·.2)) with
   | none => "err"
   | some gs =>
-    if !q.groupBy.isEmpty || !q.orderBy.isEmpty || q.hasHaving || !q.filters.isEmpty then "unsupported" else
+    if !q.filters.isEmpty then "unsupported" else
     let scan : List Triple := gs.flatMap fun g => g.master.filterMap fun v => st.triple v.id
     let sols := solutions scan (q.lower.map (·.nanos)) (q.upper.map (·.nanos)) q.clauses
-    let rows := sols.map (project q.projs)
     let cols := dedup q.outputBindings
-    match q.limit with
-    | some n => s!"limit={n} " ++ showTable cols rows false
-    | none => showTable cols rows false
+    let staged : Except QErr (List Row) :=
+      if q.groupBy.isEmpty then .ok (sols.map (project q.projs)) else groupReduce S floatAddBits q sols
+    match staged with
+    | .error _ => "err"
+    | .ok rows =>
+      let hv : Except HErr (List Row) :=
+        if q.hasHaving then
+          match newEvaluator having with
+          | some e => havingFilter S e rows
+          | none => .error .badConstant
+        else .ok rows
+      match hv with
+      | .error _ => "err"
+      | .ok rows =>
+        let rows := sortRows S q.orderBy rows
+        let ordered := !q.orderBy.isEmpty
+        let rows := if ordered then canonTies S q.orderBy cols rows else rows
+        match q.limit with
+        | some n => s!"limit={n} " ++ showTable cols rows ordered
+        | none => showTable cols rows ordered
 
 def step (useSpec : Bool) (st : St) (line : String) : St × String :=
   match words line with
@@ -174,7 +284,10 @@ def step (useSpec : Bool) (st : St) (line : String) : St × String :=
   | "Q" :: ws =>
     match parseStmt ws with
     | none => (st, "bad-op")
-    | some q => (st, if useSpec then runSpec st q else runModel st q)
+    | some q =>
+      match parseHaving ws with
+      | none => (st, "bad-op")
+      | some hv => (st, if useSpec then runSpec st q hv else runModel st q hv)
   | _ => (st, "bad-op")
 
 def main (mode : String) : IO Unit := do
